@@ -21,6 +21,7 @@ from core import Fn, Target, VC
 from nvwp import V, AND, OR, NOT, IMP, lit, Unsupported
 from wplib import IdEnvWP, declare_array, array_name, load, reach_vc
 from cxx2c import unwrap, strip_cv, qual
+import comb
 
 TU_R = 'src/machine/result.cpp'
 HDR_R = os.path.join(astload.REPO, 'include/nano/machine/result.h')
@@ -1178,7 +1179,7 @@ def build(tier):
     vcs += v2 + lemmas()
     fns += f2
     return {
-        'targets': result_targets() + tuner_targets() + optimize_targets() + local_search_targets() + space_targets() + result_ctor_targets(), 'vcs': vcs, 'functions': fns,
+        'targets': result_targets() + tuner_targets() + optimize_targets() + local_search_targets() + space_targets() + result_ctor_targets() + comb.comb_targets(tier), 'vcs': vcs, 'functions': fns,
         'decided': [
             'evaluate(): for an arbitrary grid point G -- the callback is asked to evaluate G exactly when G is a candidate that is not yet among the steps (never twice, only candidates); '
             'a non-finite value is rejected with an exception, and only then, and is never stored; on return steps = old steps + one step per evaluated point holding the callback value, '
@@ -1228,6 +1229,9 @@ def replay(rp):
     grids/landscapes/budgets, and the real ml::result_t through its public API -- and reports a violation it observes"""
     import replaylib
     out = {'reproduced': False, 'runs': []}
+    if os.environ.get('NV_NO_NATIVE_REPLAY'):      # mutation loops: the native replay rebuilds the library from the working tree
+        out['skipped'] = 'NV_NO_NATIVE_REPLAY'
+        return out
     tgt = rp.get('target', '')
     which = 'result' if any(k in tgt for k in ('result', 'tune::', '_trial', 'ml::', 'values')) else 'tuner'
     exe = replaylib.build_with_library('replay/C13_replay.cpp', 'C13_replay')
